@@ -98,14 +98,9 @@ var coerceTargets = []string{"t", "list", "vector", "string", "character", "symb
 // coerceKnown names the known finding (known_findings/C16.json) that covers a coerce result which is not of
 // the requested type; "" if none does.
 func coerceKnown(src *node, target string, res slip.Object) string {
-	h := hierarchyOf(res)
 	switch {
 	case res == nil && (target == "list" || target == "vector" || target == "octets" || target == "string" || target == "bit-vector"):
 		return "C16-nil-is-only-null"
-	case target == "short-float" && len(h) > 0 && h[0] == "single-float":
-		return "C16-short-float-is-single-float"
-	case target == "byte" && len(h) > 0 && h[0] == "octet":
-		return "C16-byte-is-octet"
 	}
 	return ""
 }
